@@ -31,7 +31,7 @@ RESP_LOCS = {'same': Q('LocalResp'), 'other_file': Q('OtherResp'), 'dep_installe
 KEYWORD_RPCS = ['Import', 'Global', 'Class', 'From', 'Return', 'Pass', 'Lambda', 'Yield', 'Del', 'Assert', 'Await',
                 'Async', 'Try', 'While', 'With', 'Is', 'In', 'Not', 'Or', 'And', 'If', 'Else', 'Elif', 'For', 'Def',
                 'Raise', 'Break', 'Continue', 'Except', 'Finally', 'Nonlocal', 'As']
-UNSAFE_RPCS = ['CreateChannel', 'GrpcChannel', 'OperationsClient']
+UNSAFE_RPCS = ['CreateChannel', 'GrpcChannel', 'OperationsClient', 'Close', 'Kind']
 
 
 def other_pkg_file():
